@@ -29,7 +29,8 @@ def replay(ctx, path):
     open(inp, "w").write('<<"BEHAVIOUR", %s>>\n' % json.dumps(json.dumps({"hist": v["behaviour"], "ops": [], "expect": v["expect"]})))
     out = ctx.path("replay_one.json")
     c = v["constants"]
-    vlib.run_harness(ctx, [binary, "replay-cluster", "--input", inp, "--out", out, "--f", str(c["F"]), "--nodes", ",".join(map(str, c["CNodes"]))])
+    vlib.run_harness(ctx, [binary, "replay-cluster", "--input", inp, "--out", out, "--f", str(c["F"]), "--nodes", ",".join(map(str, c["CNodes"])),
+                           "--mode", v.get("mode", "fine")])
     rep = vlib.load_json(out)
     for x in rep["violations"]:
         ctx.violations.append(x)
